@@ -45,7 +45,7 @@ CLASSES = [
          ("roChanged", ["int"], "void"), ("gChanged", [], "void"), ("multiChanged", [], "void"),
          ("fired", [], "void"), ("fired2", ["int", "QString"], "void"),
          ("picked", [], "void"), ("picked", ["int"], "void"), ("picked", ["int", "bool"], "void"),
-         ("changed", ["int"], "void"), ("changed", ["QString"], "void"), ("gPicked", ["VGadget"], "void"),
+         ("changed", ["int"], "void"), ("changed", ["QString"], "void"), ("gPicked", ["VGadget"], "void"), ("dPicked", ["double"], "void"),
      ],
      "slots": [("act", ["int"], "void"), ("act2", ["QString", "int"], "void"), ("setNext", ["VObj*"], "void")],
      "methods": [("compute", ["int"], "int"), ("child", [], "VObj*"), ("put", ["int"], "void"), ("put", ["QString"], "void"),
